@@ -185,6 +185,10 @@ def generic_replay(func, modules, patches=()):
                 return False, 'replay left the concrete fragment: %r' % (x,)
             except Exception as x:
                 import traceback
+                if eng.failures:
+                    # an obligation already failed in this concrete run; the harness then tripped over the consequences
+                    return True, 'concrete re-execution on the real package fails: %s (then %s)' % (
+                        '; '.join(sorted(set(eng.failures))[:3]), type(x).__name__)
                 return False, 'harness raised in replay: %s' % traceback.format_exc()[-600:]
         finally:
             _time.time = real_time
